@@ -59,7 +59,7 @@ REQUIRED_CLAUSES = [history.CLAUSE, "option.tofk5-small", "reflection.geometric"
                     "frame.equinox", "frame.norm==R", "obliquity~IAU",
                     "nutation.longitude~18.6yr", "nutation.obliquity~18.6yr",
                     "true==mean+deps", "coarse.true-longitude",
-                    "coarse.apparent-longitude", "coarse.ra-dec",
+                    "coarse.apparent-longitude", "coarse.ra-dec", "coarse.radius-vector",
                     "date-forms.identical"]
 
 
@@ -321,8 +321,14 @@ def case_coarse(mon, jde):
     d2 = abs(wrap(la() - al()))
     d3 = sp.sep_ll(a(), d(), ra(), dec())
     mon.stat("coarse_vs_vsop_deg", max(d1, d2, d3), case)
-    mon.check("coarse.true-longitude", d1 <= 0.02 and abs(rt - gr) <= 1e-3,
+    mon.check("coarse.true-longitude", d1 <= 0.02,
               dict(case, coarse=lt(), vsop=gl()))
+    # the radius vector each of the three returns: 0.02 degree of arc at
+    # 1 AU is 3.5e-4 AU (the unchanged tree stays within 8.2e-5 AU)
+    dr = max(abs(rt - gr), abs(ra_ - ar), abs(r3 - ar))
+    mon.stat("coarse_radius_vs_vsop_au", dr, case)
+    mon.check("coarse.radius-vector", dr <= 3.5e-4,
+              lambda: dict(case, coarse=[rt, ra_, r3], vsop=[gr, ar]))
     mon.check("coarse.apparent-longitude", d2 <= 0.02,
               dict(case, coarse=la(), vsop=al()))
     mon.check("coarse.ra-dec", d3 <= 0.02,
